@@ -14,7 +14,7 @@ def plan(ctx):
     obs.append(Obligation("twice", "xh", "c18", "names_twice", timeout=T, bounds="0..4 names, first generator consumed 0..4 items",
                           desc="an earlier (partially consumed) call does not change the next call on the same parser"))
     obs.append(Obligation("api.cached_near_duplicates", "xh", "c18", "api_lookups_cached", timeout=T * 2,
-                          bounds="7 pairs of texts differing only in blank runs inside %names%; either order; first text parsed or evaluated (finite domain)",
+                          bounds="10 pairs of texts (7 differing only in blank runs inside %names%, 3 identical texts with list / dict literals, pipes, conditionals); either order; first text parsed or evaluated (finite domain)",
                           desc="with a parse cache, after a near-duplicate text: eval asks the host only for the names list_names reports for the text at hand"))
     obs.append(Obligation("names_exact", "xh", "c18", "names_exact", timeout=T * 3,
                           bounds="13 texts (identifiers that start / end like keywords, keywords next to names, %..% names holding keywords) x no earlier call or one of 9 failing texts through eval / parse / an abandoned listing (finite domain, native)",
